@@ -556,12 +556,15 @@ class LinkTracker:
     def __init__(self, box: fsbox.Box):
         self.box = box
         self.created: Dict[Any, bytes] = {}
+        self.outward = False
 
     def scan(self) -> Tuple[List[Tuple[bytes, Any]], bool]:
-        """-> (new links [(path, key)], any relocated link present)"""
+        """-> (new links [(path, key)], any relocated link present); sets
+        self.outward when some link under the root now resolves outside"""
 
         new = []
         relocated = False
+        self.outward = False
         todo = [self.box.permitted]
 
         while todo:
@@ -592,6 +595,10 @@ class LinkTracker:
                     elif self.created[key] != d:
                         relocated = True
 
+                    if not fsbox.inside(self.box.permitted,
+                                        fsbox.resolve(p, True).path):
+                        self.outward = True
+
         return new, relocated
 
 
@@ -616,7 +623,8 @@ def double_slash(paths) -> bool:
 
 
 def judge_served(box: fsbox.Box, acc: fsbox.Access, tag: str,
-                 dslash: bool) -> Optional[Tuple[str, Violation]]:
+                 dslash: bool, outward: bool = False) -> \
+        Optional[Tuple[str, Violation]]:
     """Classify one access made while serving a chrooted client"""
 
     if acc.zone == 'in':
@@ -642,6 +650,14 @@ def judge_served(box: fsbox.Box, acc: fsbox.Access, tag: str,
             'chroot-escape', detail + ' -- request path with two leading '
             'slashes was mapped to a path outside the root',
             'chroot:double-slash-path')
+
+    if acc.cls == 'stat' and outward:
+        # os.path.realpath() follows links in user space: the kernel-level
+        # walk of this access saw none, but a link under the root already
+        # pointed outside when the request arrived
+        return 'escape', Violation(
+            'chroot-escape', detail + ' -- while a link stored inside the '
+            'root resolves outside it', 'chroot:stale-symlink-containment')
 
     if acc.cls == 'stat':
         return 'probe', Violation('chroot-probe', detail,
@@ -675,7 +691,8 @@ class ServedOracle:
             if acc.res.links:
                 self.labels.add('link-followed')
 
-            res = judge_served(box, acc, self.tag, dslash)
+            res = judge_served(box, acc, self.tag, dslash,
+                               self.tracker.outward)
 
             if res is not None:
                 (self.escapes if res[0] == 'escape'
@@ -900,8 +917,8 @@ def rearrange_scenario(draw):
         newloc = newdir + link[len(where):]
     elif how == 'via-link':
         # a second link whose target walks through "/" and back up
-        ops.append(['symlink', b'/', where + b'/r'])
         ops.append(['symlink', b'r/../../' + tail, where + b'/m2'])
+        ops.append(['symlink', b'/', where + b'/r'])
         newloc = where + b'/m2'
     else:
         newloc = link
@@ -1645,7 +1662,7 @@ def scp_sink_strategy(tier: str):
 
 FAMILIES = [
     Family('chroot', run_chroot, strategy=chroot_strategy,
-           budget={'quick': 640, 'thorough': 24000},
+           budget={'quick': 1200, 'thorough': 24000},
            required={'all': ['op:' + k for k in OP_KINDS] +
                      ['path:dotdot', 'path:abs', 'path:empty-comp',
                       'path:nonutf8', 'path:long', 'path:sentinel',
@@ -1653,12 +1670,12 @@ FAMILIES = [
                       'ok:rename', 'ok:symlink', 'ok:mkdir', 'ok:open',
                       'v3', 'v4', 'v5', 'v6', 'raw', 'api']}),
     Family('scp-chroot', run_scp_chroot, strategy=scp_chroot_strategy,
-           budget={'quick': 200, 'thorough': 6000},
+           budget={'quick': 320, 'thorough': 6000},
            required={'all': ['upload', 'download', 'accepted', 'refused',
                              'served', 'name:dotdot', 'name:abs',
                              'path:dotdot', 'rec:C', 'rec:D', 'rec:E']}),
     Family('sftp-get', run_sftp_get, strategy=sftp_get_strategy,
-           budget={'quick': 400, 'thorough': 12000},
+           budget={'quick': 700, 'thorough': 12000},
            required={'all': ['get', 'mget', 'name:dotdot', 'name:abs',
                              'name:empty-comp', 'name:abs-into-box',
                              'dup-name', 'symlink-then-dir',
@@ -1666,7 +1683,7 @@ FAMILIES = [
                              'follow', 'wrote-something', 'completed',
                              'v3', 'v4', 'v5', 'v6']}),
     Family('scp-sink', run_scp_sink, strategy=scp_sink_strategy,
-           budget={'quick': 400, 'thorough': 12000},
+           budget={'quick': 600, 'thorough': 12000},
            required={'all': ['rec:C', 'rec:D', 'rec:E', 'rec:T',
                              'name:dotdot', 'name:abs', 'name:empty-comp',
                              'mismatched-E', 'accepted', 'refused',
